@@ -9,8 +9,9 @@
 //   edge     the same skeleton, with style / srcset / style-element values drawn at random from a small
 //            alphabet around the delimiters of the scanners (never planted: model-vs-code only), the
 //            code's other heuristics (data-preview, meta content, <a> asset paths, data-src...)
-//   excl     one reference from a named exclusion class (percent or "0." in a style attribute,
-//            "//" in a style element, comma or tab in a srcset, a quote inside url())
+//   excl     one reference from a named exclusion class (percent or "0." in a style attribute), or
+//            from a class that was one before its repair ("//" in a style element, comma or tab in a
+//            srcset, a quote inside url()): those must pass now
 //   open     documents that use the JSON / xurls heuristics the model leaves to oracles
 package main
 
@@ -230,10 +231,19 @@ func (g *hgen) srcsetAttr(k string) Attr {
 	a := Attr{K: k}
 	for i := 0; i < n; i++ {
 		c := Cand{R: *g.genRef(false)}
-		if i > 0 || g.r.Chance(15) {
-			c.Pre = g.pick([]string{" ", " ", "\n      ", "", "\t"})
+		if g.r.Chance(8) && (c.R.F == "pabs" || c.R.F == "abs") {
+			// image CDNs put commas into paths
+			c.R.P = append([]string{"cdn-cgi", "image", g.pick([]string{"width=80,quality=75", "w_640,h_480,c_fill", "f=auto,q=80"})}, c.R.P...)
+			g.tag("srcset-comma-url")
 		}
-		switch g.r.Intn(5) {
+		if i > 0 || g.r.Chance(15) {
+			c.Pre = g.pick([]string{" ", " ", "\n      ", "", "\t", "\f "})
+		}
+		// a comma ends a candidate that has no descriptor only when white space follows
+		if i > 0 && a.Ss[i-1].Rest == "" && c.Pre == "" {
+			c.Pre = " "
+		}
+		switch g.r.Intn(7) {
 		case 0:
 			c.Rest = ""
 		case 1:
@@ -242,6 +252,12 @@ func (g *hgen) srcsetAttr(k string) Attr {
 			c.Rest = fmt.Sprintf(" %dx", 1+g.r.Intn(3))
 		case 3:
 			c.Rest = fmt.Sprintf("  %d.5x ", 1+g.r.Intn(2))
+		case 4:
+			c.Rest = fmt.Sprintf("\t%dx", 1+g.r.Intn(3))
+			g.tag("srcset-ws-sep")
+		case 5:
+			c.Rest = "\n        480w"
+			g.tag("srcset-ws-sep")
 		default:
 			c.Rest = " 640w\n"
 		}
@@ -267,9 +283,10 @@ func (g *hgen) cssDoc() *TokDoc {
 		t.Q2 = t.Q1
 		if g.r.Chance(85) {
 			t.R = g.genRef(false)
-			// the "//" rewriting is a named exclusion: keep it for the excl stream
-			for t.R.F == "net" {
-				t.R = g.genRef(false)
+			if t.Q1 == "\"" && g.r.Chance(10) && len(t.R.P) > 0 && t.R.P[len(t.R.P)-1] != "" {
+				// a quote inside a quoted URL
+				t.R.P[len(t.R.P)-1] = "o'brien-" + t.R.P[len(t.R.P)-1]
+				g.tag("css-inner-quote")
 			}
 		} else {
 			t.U = g.pick([]string{"data:image/png;base64,AAAA", "#wp-duotone-x", "#clip", "about:blank"})
